@@ -370,6 +370,33 @@ CARRIERS = {
 }
 
 
+# the documented adaptations (property anchors): which refused commands the library may issue again, for
+# which codes.  Everything else must surface as an error.
+C8, C9, CA, C5, C3, CE = 0xC8, 0xC9, 0xCA, 0xC5, 0xC3, 0xCE
+ADAPT = {
+    (0x0a, 0x11): {C8, C9, CA},          # Read FRU Data: read-size back-off
+    (0x0a, 0x23): {C5, C3, CE, CA},      # Get SDR: reservation renewal, timeout / busy retry, smaller chunk
+    (0x04, 0x21): {C5, C3, CE, CA},      # Get Device SDR
+    (0x0a, 0x43): {CA, C5},              # Get SEL Entry: smaller chunk; get_and_clear_sel_entry renews
+    (0x0a, 0x46): {C5},                  # Delete SEL Entry inside get_and_clear_sel_entry
+    (0x0a, 0x47): {C5},                  # Clear SEL
+    (0x0a, 0x27): {C5},                  # Clear SDR Repository
+}
+HPM_LONG = {(0x2c, 0x31), (0x2c, 0x32), (0x2c, 0x33), (0x2c, 0x35), (0x2c, 0x38)}
+
+
+def adapted(log, j, fault):
+    """is normal completion after the fault at request j covered by a documented retry / adaptation that the
+    exchange log shows actually happened?"""
+    cc, mode = fault
+    cmd = (log[j].netfn, log[j].cmd)
+    if mode == 'raised' and cc == 0xC0:
+        return len(log) > j + 1 and log[j + 1].canon()[:4] == log[j].canon()[:4]      # send_message busy retry
+    if cc == 0x80 and cmd in HPM_LONG:
+        return any((y.netfn, y.cmd) == POLL for y in log[j + 1:])
+    return cc in ADAPT.get(cmd, ()) and reissued(log, j)
+
+
 def reissued(log, k):
     """was the request refused at index k issued again later (same command, same length, at most 3 bytes
     differing: reservation id / reduced count)?"""
@@ -419,13 +446,12 @@ def judge(opname, base, out, log, faults):
             return None
         return ('different-value', 'returned %s, expected the fault-free result without entry %d'
                 % (json.dumps(out[1])[:120], k))
-    evid = all(reissued(log, j) or (faults[j][0] == 0x80 and any((y.netfn, y.cmd) == POLL for y in log[j + 1:]))
-               for j in consumed)
+    evid = all(adapted(log, j, faults[j]) for j in consumed)
     if base[0] == 'ok' and out[1] == base[1]:
         if evid:
             return None
         return ('swallowed', 'completed normally (result as without the fault) although request %d was answered '
-                '0x%02x and never issued again' % (k, cc))
+                '0x%02x (%s) and no documented retry / adaptation for that code took place' % (k, cc, mode))
     return ('different-value', 'returned %s after request %d was answered 0x%02x (%s); fault-free result %s'
             % (json.dumps(out[1])[:100], k, cc, mode, json.dumps(base[1])[:100] if base[0] == 'ok' else base[1]))
 
